@@ -89,6 +89,12 @@ def _case(ctx, spec):
     apdu = bytes.fromhex(spec["apdu"])
     sa, da = spec["sa"].to_bytes(2, "big"), spec["da"].to_bytes(2, "big")
     scf = SecurityControlField.from_knx(spec["scf"])
+    if spec.get("scf_plain"):
+        # the same control field with its enum fields given as equal plain ints (IntEnum members compare equal to them):
+        # the octet, and therefore MAC and ciphertext, must be the same
+        scf = SecurityControlField(tool_access=scf.tool_access, algorithm=int(scf.algorithm),
+                                   system_broadcast=scf.system_broadcast, service=int(scf.service))
+        ctx.count("scf_fields_given_as_plain_ints")
     tname, t = next((n, x) for n, x in _tpcis() if n == spec["tpci"] and x.sequence_number == spec.get("tseq", x.sequence_number))
     octet = t.to_knx()
     at = CEMIAddressType(spec["at"])
@@ -436,6 +442,7 @@ def _spec(rng, length, alg, scfs, tp):
         "tpci": tname, "tseq": t.sequence_number,
         "at": rng.randrange(2), "eff": rng.choice((0, 0, 4)),
         "seq": seq,
+        "scf_plain": rng.random() < 0.2,
     }
 
 
